@@ -21,9 +21,7 @@
      enum) the tag may also be the variant *index* as an integer (ContentRefDeserializer::
      deserialize_identifier -> visit_u64); from JSON text it must be a string;
    * untagged enums: alternatives tried in declaration order, first success wins.
-   MODEL GAPS (stated, excluded from the generators, see evidence assumptions):
-   * an integer literal in [2^63, 2^64) at a DefaultValue position is Float(z as f64) in serde; the
-     model has no float arithmetic and rejects it;
+   (an integer literal in [2^63, 2^64) at a DefaultValue position is Float(z as f64): modelled, see d_f64.)
    (the difference between the owned ContentDeserializer, which reads an *empty object* as unit, and
    ContentRefDeserializer / JSON text, which do not, is modelled: [d_unit_enum true] is used exactly
    where a unit-variant enum is a direct field of an internally tagged variant, i.e. for
@@ -51,9 +49,36 @@ Definition d_i32 : dec Z := fun j =>
   match j with JInt z => if in_range i32_min i32_max z then Some z else None | _ => None end.
 Definition d_i64 : dec Z := fun j =>
   match j with JInt z => if in_range i64_min i64_max z then Some z else None | _ => None end.
-(* f64 as its rendering; MODEL GAP: integer literals (serde: z as f64) are rejected here; at the
-   only use site (DefaultValue) integers that fit i64 are taken by the earlier alternative *)
-Definition d_f64 : dec string := fun j => match j with JFloat r => Some r | _ => None end.
+(* f64 as its rendering.  A JSON number that serde_json hands over as an *integer* (visit_u64 / visit_i64)
+   is accepted by the f64 visitor as `z as f64`.  At the only use site (DefaultValue, after the Integer(i64)
+   alternative) this is reached exactly for 2^63 <= z < 2^64, so that is the range modelled:
+   [u64_as_f64] = round to nearest, ties to even, 53-bit mantissa (multiples of 2048 in this binade);
+   [f64_int_render] = Rust's Display of that f64: the shortest decimal digits that read back as the same f64,
+   the closest such if several (core::fmt::float -> flt2dec shortest), printed positionally.
+   Integers inside i64 never arrive here (taken by the earlier alternative): None is returned for them. *)
+Definition two63 : Z := 9223372036854775808.
+Definition two64 : Z := 18446744073709551616.
+Definition u64_as_f64 (z : Z) : Z :=
+  let q := Z.div z 2048 in
+  let r := Z.modulo z 2048 in
+  let m := if Z.ltb r 1024 then q else if Z.ltb 1024 r then (q + 1)%Z else if Z.even q then q else (q + 1)%Z in
+  (m * 2048)%Z.
+Fixpoint shortest_from (p : nat) (zf lo hi : Z) (incl : bool) : Z :=
+  let P := Z.pow 10 (Z.of_nat p) in
+  let clo := if incl then (- (Z.div (- lo) P))%Z else (Z.div lo P + 1)%Z in
+  let chi := if incl then Z.div hi P else (- (Z.div (- hi) P) - 1)%Z in
+  if Z.leb clo chi then (Z.max clo (Z.min chi (Z.div (zf + Z.div P 2) P)) * P)%Z
+  else match p with O => zf | S p' => shortest_from p' zf lo hi incl end.
+Definition f64_int_render (zf : Z) : string :=
+  let lo := (zf - (if Z.eqb zf two63 then 512 else 1024))%Z in      (* half the gap to the neighbouring doubles *)
+  let hi := (zf + (if Z.eqb zf two64 then 2048 else 1024))%Z in
+  Z_to_string (shortest_from 19 zf lo hi (Z.even (Z.div zf 2048))).
+Definition d_f64 : dec string := fun j =>
+  match j with
+  | JFloat r => Some r
+  | JInt z => if in_range two63 (two64 - 1)%Z z then Some (f64_int_render (u64_as_f64 z)) else None
+  | _ => None
+  end.
 
 Definition d_option {A} (d : dec A) : dec (option A) := fun j =>
   match j with JNull => Some None | _ => option_map Some (d j) end.
